@@ -483,11 +483,37 @@ fn client_directed(k: u64, seed: u64) -> Option<CCfg> {
             ];
             c.label = "C10-handle-dropped-under-back-pressure-with-queued-cancel";
         }
+        33 | 34 => {
+            // C14: at the in-flight maximum with an unflushed request in a capacity-1 transport, the
+            // call is abandoned and the last handle dropped between two polls of the dispatch
+            c.ncalls = 0;
+            c.never_pct = 100;
+            c.abandon_pct = 0;
+            c.cap = 1;
+            c.max_in_flight = 1;
+            c.model = if k == 33 { Model::Coupled } else { Model::Independent };
+            c.isolated_strays = false;
+            c.script = vec![
+                Act::CloseFlush,
+                Act::StartCall(long),
+                Act::RunIdle,
+                Act::Abandon(0, None),
+                Act::DropHandle,
+                Act::RunIdle,
+                Act::OpenFlush,
+                Act::RunIdle,
+                Act::FreeSlot,
+                Act::RunIdle,
+                Act::FreeSlot,
+                Act::RunIdle,
+            ];
+            c.label = "C14-at-capacity-unflushed-abandon-and-handle-drop-in-one-gap";
+        }
         _ => return None,
     }
     Some(c)
 }
-const N_CLIENT_DIRECTED: u64 = 33;
+const N_CLIENT_DIRECTED: u64 = 35;
 
 /// scenario `i` of property `prop`
 pub fn client_cfg(prop: &str, i: u64, base_seed: u64, thorough: bool) -> CCfg {
